@@ -104,9 +104,16 @@ def form_name(original_form: ufl.form.Form, form_id: int, prefix: str) -> str:
 
 
 def expression_name(
-    expression: tuple[ufl.core.expr.Expr, npt.NDArray[np.floating]], prefix: str
+    expression: tuple[ufl.core.expr.Expr, npt.NDArray[np.floating]],
+    prefix: str,
+    expression_id: int | None = None,
 ) -> str:
-    """Get expression name."""
+    """Get expression name.
+
+    The position of the expression in its module (``expression_id``) is part of
+    the name, so that equal expressions in one module get distinct names.
+    """
     assert isinstance(expression[0], ufl.core.expr.Expr)
-    sig = compute_signature([expression], prefix)
+    tag = prefix if expression_id is None else str((prefix, expression_id))
+    sig = compute_signature([expression], tag)
     return f"expression_{sig}"
